@@ -77,7 +77,7 @@ pub open spec fn registered_record(w: World, t: TmpPairInfo, pair: Seq<char>, re
     && rec.requirements == own.requirements && rec.commission_rate == own.commission_rate
 }
 //%fn contracts/halo-factory/src/contract.rs | - | reply
-//%%rewrite #1 /Decimal256::from_str\(&pair_info\.commission_rate\.to_string\(\)\)\.unwrap\(\)/ => decimal256_reparse(pair_info.commission_rate) ## text: Decimal256 -> string -> Decimal256 (C18 n/a) replaced by an assumed identity
+//%%rewrite #? /Decimal256::from_str\(&pair_info\.commission_rate\.to_string\(\)\)\.unwrap\(\)/ => decimal256_reparse(pair_info.commission_rate) ## text: Decimal256 -> string -> Decimal256 (C18 n/a) replaced by an assumed identity
 //%%sig
     ensures
         /*[C16,C17 reply.registers-under-tmp-key]*/ r is Ok ==> old(deps.storage).tmp is Some && ({
